@@ -7,6 +7,14 @@ HOOK_COMMITS = subprocess.run(['git','-C','/repo','log','--format=%h %s'],captur
 hooks = [l.split()[0] for l in HOOK_COMMITS if 'verif hook' in l]
 
 CLAIMED = {
+ 'C04': dict(
+   text="Deductive proof of the functional contracts of the routing table: TypeURLMap.Set/Get/SetTypeIsImplementsNode/GetTypeIsImplementsNode (exact effect plus frame over all other (type, field) pairs and flags), isNodeField against the property's definition of the Relay entry point (name node, one argument id: ID!, nullable Node), SetFromSchema (every non-builtin, non-id, non-entry-point field of every non-builtin object of the schema is routed to that service; types not declared as objects by the schema are untouched; every route is either unchanged or now points to this service; IsImplementsNode iff some processed schema lists Node) and the fold in ExtendMergerFunc.Merge (every declared field of every input has a route; every route names some input's URL), for arbitrary schemas and any number of services. 'Exactly the one service' for root fields additionally needs C05's overlap rejection (not claimed).",
+   note="Assumed: mergeTypes and the schema re-load do not modify the input schemas (modifies-assumed); AST element/field non-nil invariants (validator post-condition); (*ast.Type).Name as ghost TName; map iteration models every order.",
+   ref="DESIGN.md §5 C04", technique="contract-based deductive verification (quantified map-of-map invariants, @using hypothesis selection, z3+cvc5)"),
+ 'C14': dict(
+   text="Decides the three obligations of the decomposition in DESIGN §5: (a) reads-frame: every access path SequentialPlanner.Plan reads from the planning context (transitively through the repo) is also read by CachedPlanner.hash, Schema and TypeURLMap excepted; (b) modifies-frame: no function outside package planner stores into a QueryPlan / QueryPlanStep it did not allocate; (c) lock discipline: the two cache maps are read only with the RWMutex held (R or W) and written only with W held, every lock is released on every return path (ghost lock state, path-sensitive defers), plus no-panic obligations and the cached-plan non-nil refinement of Planner.Plan. Interleavings of concurrent requests and the induction over histories are not mechanised.",
+   note="Assumed: SHA-1 and the selection-set formatter are injective on what they read; the frame analyses are conservative syntactic dataflows over go/ssa (not SMT); the inner planner does not share the cache; one sequential thread's view of the mutex.",
+   ref="DESIGN.md §5 C14", technique="contract-based deductive verification (reads/modifies frame obligations by SSA dataflow, ghost lock state obligations by z3)"),
  'C07': dict(
    text="Deductive proof of no-panic (nil, bounds, type assertion, nil-map, division) obligations generated for every instruction of the request-decoding path (Parse, parseRequest, injectFile, IsBatchMode), the handler (queryHandler, its per-operation closure and reducer, Emit, emitError, getQueryers, parseIntrospectionQuery), error formatting and the plan post-processing, for arbitrary request bodies / multipart maps; plus ghost-state postconditions: exactly one status line per request, 422 iff Parse fails, 200 otherwise, invalid operations answered with data:null and >=1 error. Termination (hangs) and panics inside gqlparser / encoding/json / net/http are not decided.",
    note="Assumed: library contracts listed in the evidence (LoadQuery, FormFile, json.Unmarshal, strings.*), callbacks (QueryerFactory) do not modify gateway state, modifies clauses marked assumed; planner internals below SequentialPlanner.Plan and the executor below Executor.Execute are covered only as far as their own contracts (see evidence 'functions_under_contract').",
